@@ -114,9 +114,18 @@ def _immutable_expr(v):
     return False
 
 
-def shared_class_state(trees):
+def shared_class_state(trees, is_descriptor=None):
     """[(kind, class, attribute, site, message)] for every class of the given (relpath, tree) modules."""
     out = []
+    # an object of a class with __get__ placed in a class body is a descriptor: reading the attribute on an instance yields what
+    # __get__ returns (here: per-instance storage), not the per-class object itself
+    descriptors = {c.name for _r, t_ in trees for c in ast.walk(t_) if isinstance(c, ast.ClassDef)
+                   and any(isinstance(f, ast.FunctionDef) and f.name == "__get__" for f in c.body)}
+
+    def _is_descriptor(val):
+        f = val.func if isinstance(val, ast.Call) else None
+        return (isinstance(f, ast.Name) and f.id in descriptors) or (isinstance(f, ast.Attribute) and f.attr in descriptors)
+
     for rel, tree in trees:
         for cnode in [n for n in ast.walk(tree) if isinstance(n, ast.ClassDef)]:
             shared = {}
@@ -126,7 +135,7 @@ def shared_class_state(trees):
                     tg, val = st.targets[0].id, st.value
                 elif isinstance(st, ast.AnnAssign) and isinstance(st.target, ast.Name) and st.value is not None:
                     tg, val = st.target.id, st.value
-                if tg is not None and not _immutable_expr(val):
+                if tg is not None and not _immutable_expr(val) and not _is_descriptor(val) and not (is_descriptor is not None and is_descriptor(cnode.name, tg)):
                     shared[tg] = (st, val)
             if not shared:
                 out.append(("ok", cnode.name, "", "%s:%d" % (rel, cnode.lineno), ""))
@@ -272,7 +281,22 @@ def run(ck):
     # An object created once in a class body is the same object for every instance.  If instances change it (method calls on
     # it, item stores, augmented assignment), what one model does (a stop request, a recorded value) is seen by every other
     # model in the process: the same seeded sequence of operations then gives different results on its second run.
-    for kind, cname, nm, site, msg in shared_class_state([(m.relpath, m.tree) for m in mods]):
+    def is_descr(cname, nm):
+        # by value: what the class attribute evaluates to is a descriptor (property(...) object, object with __get__)
+        try:
+            cl = prog.cls(cname)
+        except Exception:
+            return False
+        ca = cl.class_attrs.get(nm)
+        if ca is None or not isinstance(ca, ast.Call):
+            return False
+        try:
+            ps = paths_of(prog, lambda it: it.descriptor_of(cl, nm, "__get__"), max_paths=4)
+        except Exception:
+            return False
+        return bool(ps) and all(p.outcome == "return" and isinstance(p.value, VObj) for p in ps)
+
+    for kind, cname, nm, site, msg in shared_class_state([(m.relpath, m.tree) for m in mods], is_descr):
         if kind == "violation":
             ck.violation("C14.R6", "%s.%s: shared by every instance and changed through instances" % (cname, nm), site, msg)
         else:
